@@ -89,7 +89,20 @@ class Scenario:
     async def main(self, loop: vloop.VirtualLoop) -> None:
         c = self.case
         hops = c["hops"]
-        w = World(loop, hops + 3)
+        ro = int(c.get("relay_only") or 0)
+        flags = None
+        if ro:
+            # some of the nodes X may run through are relays only (the library's default peer flags): they never serve as
+            # an exit, yet every node a circuit is extended to first holds an exit entry for it until its own next hop
+            # has answered. Nodes 0 and -1 (the originators) and at least one more node stay exit-capable.
+            from ipv8.messaging.anonymization.tunnel import (PEER_FLAG_EXIT_BT, PEER_FLAG_EXIT_IPV8, PEER_FLAG_RELAY,
+                                                            PEER_FLAG_SPEED_TEST)
+            only = {1} if ro == 1 or hops == 1 else {1, 2}
+
+            def flags(i):
+                return {PEER_FLAG_RELAY, PEER_FLAG_SPEED_TEST} if i in only else \
+                    {PEER_FLAG_RELAY, PEER_FLAG_EXIT_BT, PEER_FLAG_EXIT_IPV8, PEER_FLAG_SPEED_TEST}
+        w = World(loop, hops + 3, flags=flags)
         if c.get("no6"):
             loop.ipv6_available = False         # hosts without IPv6: the second outside socket of an exit cannot be opened
         try:
@@ -288,7 +301,8 @@ class Scenario:
             self.info["cls"] = "%dhop/%s/%s/%dfaults%s%s" % (hops, c["phase"], td, len(c["faults"]),
                                                             "/demand" if c.get("demand") else "",
                                                             "/race" if race is not None else "/chatter" if c.get("chatter")
-                                                            else "/early" if c.get("early") else "") + ("/no6" if c.get("no6") else "")
+                                                            else "/early" if c.get("early") else "") + ("/no6" if c.get("no6") else "") + \
+                ("/relay_only%d" % ro if ro else "")
             self.info["desc"] = (hops, c["phase"], td, tuple(map(tuple, c["faults"])), bool(c.get("demand")),
                                  tuple(race) if race is not None else None, bool(c.get("chatter")), bool(c.get("early")), bool(c.get("no6")))
         finally:
@@ -545,6 +559,12 @@ def _enum_shard(ctx: Ctx, shard: int, nshards: int, which: int, pairs: bool) -> 
         for n in range(24):
             for kind in KINDS:
                 jobs.append({**s, "seed": 5, "faults": [[n, kind]]})
+        if s["hops"] >= 2 and s["teardown"] in ("vanish", "originator"):
+            # relays that are no exits, one control message lost anywhere
+            for ro in (1, 2):
+                jobs.append({**s, "seed": 5, "faults": [], "relay_only": ro})
+                for n in range(0, 24, 2 if s["phase"] == "transfer" else 1):
+                    jobs.append({**s, "seed": 5, "faults": [[n, "drop"]], "relay_only": ro})
         if s["hops"] >= 2 and s["phase"] in ("ready", "transfer"):
             jobs.append({**s, "seed": 5, "faults": [], "early": 1})
         if s["phase"] == "transfer":
@@ -592,7 +612,8 @@ def _strategy():
     race = st.none() | st.tuples(st.integers(0, 8), st.integers(0, 8), st.integers(0, 12)).map(list)
     scen = st.tuples(sc, st.integers(0, 1000), faults, st.booleans(), race).map(
         lambda t: {**t[0], "seed": t[1], "faults": t[2], "demand": t[3], **({"race": t[4]} if t[4] is not None else {}),
-                   **({"chatter": 1} if t[1] % 3 == 0 else {}), **({"early": 1} if t[1] % 4 == 1 else {}), **({"no6": 1} if t[1] % 5 == 2 else {})})
+                   **({"chatter": 1} if t[1] % 3 == 0 else {}), **({"early": 1} if t[1] % 4 == 1 else {}), **({"no6": 1} if t[1] % 5 == 2 else {}),
+                   **({"relay_only": 1 + t[1] % 2} if t[1] % 7 in (1, 3, 5) else {})})
     join = st.fixed_dictionaries({"sub": st.just("join_limit"), "limit": st.integers(1, 4), "seed": st.integers(0, 99)})
     early = st.fixed_dictionaries({"sub": st.just("relay_early"), "limit": st.integers(0, 8), "burst": st.integers(1, 20),
                                    "seed": st.integers(0, 99)})
